@@ -73,6 +73,7 @@ pub fn name_validity(n: &str) -> Validity {
 }
 
 const POOL: [&str; 4] = ["A0", "A1", "A2", "A3"];
+const BIG_POOL: [&str; 16] = ["A0", "A1", "A2", "A3", "B0", "B1", "B2", "B3", "C0", "C1", "C2", "C3", "D0", "D1", "D2", "D3"];
 const REFS: [&str; 6] = ["A0", "A1", "A2", "A3", "nope", "ghost"];
 
 fn name_strategy() -> impl Strategy<Value = String> {
@@ -86,7 +87,10 @@ fn name_strategy() -> impl Strategy<Value = String> {
 pub fn strategy() -> impl Strategy<Value = Case> {
     let refs = || prop::collection::vec(prop::sample::select(REFS.to_vec()).prop_map(|s| s.to_string()), 0..=3);
     (
-        prop::collection::vec(prop::sample::select(POOL.to_vec()).prop_map(|s| s.to_string()), 0..=6),
+        prop_oneof![
+            5 => prop::collection::vec(prop::sample::select(POOL.to_vec()).prop_map(|s| s.to_string()), 0..=6),
+            1 => prop::collection::vec(prop::sample::select(BIG_POOL.to_vec()).prop_map(|s| s.to_string()), 18..=70),
+        ],
         0u8..6,
         refs(),
         prop::collection::vec((name_strategy(), 0u8..6, prop::bool::weighted(0.7), refs(), prop::option::weighted(0.3, any::<u16>())), 0..=6),
@@ -143,7 +147,7 @@ fn builder(case: &Case, sink: &Sink) -> (log4rs::config::runtime::ConfigBuilder,
     let mut occ: BTreeMap<String, usize> = BTreeMap::new();
     for a in &case.appenders {
         let k = occ.entry(a.clone()).or_insert(0);
-        b = b.appender(Appender::builder().build(a.clone(), Box::new(Cap { name: format!("{}#{}", a, k), sink: sink.clone() })));
+        b = b.appender(Appender::builder().build(a.clone(), Box::new(Cap { name: format!("{}#{}", a, k), sink: sink.clone(), fail: false })));
         *k += 1;
     }
     for l in &case.loggers {
